@@ -15,3 +15,7 @@ PROPS["C01"]["theorems"] += [T("Pins.newRouterShape", "pin", "NewRouter: net/htt
 PROPS["C02"]["theorems"] += [T("Pins.newRouterShape", "pin", "NewRouter: net/http's Transport over the standard library's dialer, whole function body pinned (stream wire drives it)")]
 PROPS["C03"]["theorems"] += [T("Pins.retryableShape", "pin", "retryable: every method but POST, whatever the body - both callers (body buffering in routeRequest, the repeat loop in performRequest) ask the same question")]
 PROPS["C05"]["theorems"] += [T("Pins.writeErrorShape", "pin", "writeError: user error = its code + JSON message, failed client write = nothing, everything else (a cancelled request context included) a bare 500")]
+
+# C20 under concurrency (free-running search support)
+PROPS["C20"]["streams"] += [S("conccopy", 16, 64, 2)]
+PROPS["C20"]["rule"] += " | conccopy: 8 goroutines x 200 requests, GET and POST for ONE url through one router at once, each as the server does it (GetRoutingFlavors then RouteRequest); the copy rule mirrors POST and PUT only; every POST is copied exactly once, no GET ever, every request reaches the proxy destination (free-running: search support; seeded change C20-m8)"
